@@ -3,7 +3,7 @@
 PROPS = {
     'C03': {
         'v_units': ['arith_eval'],
-        'k_units': [],
+        'k_units': ['arith'],
         'level': 'proof',
         'explanation': (
             'Contract-based deductive verification (Verus/Z3) of the real functions of yash-arith/src/eval.rs and '
@@ -11,9 +11,13 @@ PROPS = {
             'exact C value over the mathematical integers or an error exactly when that value is undefined or does not fit '
             'in i64 (all 29 operators, all i64 x i64, no bound); apply_prefix/apply_postfix/apply_binary are proved against '
             'a ghost view of the variable environment (exact value, exact store update, no effect on error); the '
-            'precedence/associativity/spelling tables equal the C tables. Not decided here: eval()/parser structure '
-            '(short-circuit slicing, RPN well-formedness), the tokenizer, and agreement of $((x)) with $(($x)) for '
-            'non-decimal constants (expand_variable parses with an uninterpreted str::parse).'),
+            'precedence/associativity/spelling tables equal the C tables; eval() is proved equal to a reference evaluator '
+            'of the reverse-Polish vector (short-circuit ||, &&, ?: evaluate only the selected operand; left-to-right order; '
+            'no panic on a well-formed vector). Kani adds: binary_result against an i128 reference for the 23 non-multiplicative '
+            'operator variants over all i64 x i64 (loop-free, complete; gives counterexamples), and, bounded, that a variable '
+            'holding a constant-like text evaluates as parse_integer_constant of that text (the helper the tokenizer uses). '
+            'Not decided here: that the parser produces a well-formed vector with C precedence (parse_tree), the tokenizer '
+            '(no-panic on arbitrary text), yash-semantics glue.'),
         'trusted_base': ['Verus 0.2026.09.13 + Z3 (bundled)', 'vstd specifications of i64::checked_add/sub/mul/div/rem, Option/Result combinators',
                          'rustc 1.98.1 front end used by Verus', '/verif/tools/vextract.py (extraction is checked verbatim against the source on every run)'],
         'assumptions': [
@@ -108,6 +112,26 @@ PROPS = {
             'the inner character iterator obeys vstd\'s iterator laws (a precondition of the contract)',
             'Iterator::next for Ranges is checked as an inherent method with the same body (impl header replaced)',
             'the reference splitter (contracts/v/split/prelude.rs) is the reading of XCU 2.6.5 the contract is stated against',
+        ],
+    },
+    'C04': {
+        'v_units': ['fnparse'],
+        'k_units': ['fnmatch'],
+        'level': 'other',
+        'explanation': (
+            'Translation kernel only. Kani checks on the real yash-fnmatch code that every ASCII literal character is '
+            'emitted into the regex as that literal character (Atom::Char outside a class; BracketAtom::Char, range end '
+            'points, one-character collating symbols and equivalence classes inside a class: unescaped iff not special '
+            'there, otherwise escaped and escapable), that ? and * become . and .*, and that an unclosed [ is literal; '
+            'Verus proves make_range (the range former of the bracket parser) folds exactly member - member. '
+            'Bounded: ASCII only (128 concrete executions per emitter), one-character collating symbols. NOT checked: the '
+            'bracket parser as a whole (quoted characters inside brackets: finding F2 in DESIGN.md was observed by running '
+            'the code but no contract within reach of either verifier decides it), non-ASCII characters, the regex engine, '
+            'trim_value / case.'),
+        'trusted_base': ['Kani 0.68.0 + CBMC 6.11', 'Verus 0.2026.09.13 + Z3', 'regex-syntax 0.8 grammar facts (assumed)'],
+        'assumptions': [
+            'the language equality pattern <-> regex is delegated to the regex crate, which is not verified',
+            'ASCII only; characters >= 0x80 are not covered by the per-character harnesses',
         ],
     },
 }
